@@ -58,7 +58,8 @@ def vec_boundary(shapes, L, with_masks=True):
                     add([setup(m, "r1", 10), "extend_from_slice r0 r1"], "extend_from_slice")
                     add([setup(m, "r1", 10), "extend_refs r0 r1"], "extend_refs")
             if cl:
-                add(["to_vec r0 r1", "push r1 27", "pop r0"], "to_vec")
+                for tv in TO_VEC:
+                    add([f"{tv} r0 r1", "push r1 27", "pop r0"], "to_vec")
             if with_masks:
                 for mask in itertools.product("01", repeat=n):
                     m = "".join(mask)
@@ -70,6 +71,7 @@ def vec_boundary(shapes, L, with_masks=True):
 VEC_OPS = ["push", "push", "push", "pop", "insert", "insert", "remove", "swap_remove", "replace", "truncate",
            "clear", "append", "split_off", "retain", "retain_mut", "extend", "collect", "len", "is_empty", "drop",
            "resize", "to_vec", "extend_from_slice", "extend_refs"]
+TO_VEC = ["to_vec", "to_vec_sm", "to_vec_ts", "to_vec_tsm"]   # Slice / SliceMut, inherent / through ToSoAVec
 CLONE_OPS = {"resize", "to_vec", "extend_from_slice", "extend_refs"}
 
 
@@ -153,7 +155,7 @@ def vec_random(shapes, count, nops, seed, p_invalid=0.15, max_len=12):
                 lines.append(f"resize r{r} {m} {fresh()}"); lens[r] = m
             elif op == "to_vec":
                 q = (r + 1 + rng.randrange(2)) % 3
-                lines.append(f"to_vec r{r} r{q}"); lens[q] = n
+                lines.append(f"{rng.choice(TO_VEC)} r{r} r{q}"); lens[q] = n
             elif op in ("extend_from_slice", "extend_refs"):
                 q = (r + 1 + rng.randrange(2)) % 3
                 if lens[r] + lens[q] > max_len: continue
@@ -283,7 +285,7 @@ def cap_scenarios(shapes, count, nops, seed):
                 elif op == "resize": m = rng.randrange(0, 14); lines.append(f"resize r{r} {m} {t}"); lens[r] = m
                 elif op == "collect": m = rng.randrange(0, 10); lines.append(f"collect r{r} {tl(tags(m, t))}"); lens[r] = m
                 elif op == "split_off": i = rng.randrange(n + 1); lines.append(f"split_off r{r} {i} r{1 - r}"); lens[1 - r] = n - i; lens[r] = i
-                elif op == "to_vec": lines.append(f"to_vec r{r} r{1 - r}"); lens[1 - r] = n
+                elif op == "to_vec": lines.append(f"{rng.choice(TO_VEC)} r{r} r{1 - r}"); lens[1 - r] = n
                 elif op == "truncate": i = rng.randrange(n + 1); lines.append(f"truncate r{r} {i}"); lens[r] = i
             elif x < 0.6:
                 op = rng.choice(["reserve", "reserve_exact"]); n = rng.choice([0, 1, 2, 3, 5, 8, 13, 30])
@@ -581,7 +583,8 @@ def fault_scenarios(shapes, L, seed):
             # user Clone: to_vec, resize, extend_from_slice, Extend<Ref>, to_owned
             for k in range(0, nl * (n + 2) + 1):
                 if cl:
-                    others.append(Scenario(sh, base + [f"clonefuse {k}", "to_vec r0 r1", "len r1"] + AFTER, "to_vec-fault"))
+                    for tv in TO_VEC:
+                        others.append(Scenario(sh, base + [f"clonefuse {k}", f"{tv} r0 r1", "len r1"] + AFTER, "to_vec-fault"))
                     others.append(Scenario(sh, base + [setup(2, "r1", 20), f"clonefuse {k}", "extend_refs r1 r0", "len r1", "push r1 28"] + AFTER, "extend_refs-fault"))
                     # (known findings KF-C16-*: the container may be left desynchronised; nothing is run on it afterwards
                     #  except the final drop, because debug builds would only cascade assertion failures)
@@ -637,7 +640,7 @@ def desync_scenarios(shapes, L, thin=False):
                               ["drop r0"], ["unwind_drop r0"], ["bounds r0 vec shared unb unb"], [f"bounds r0 slicemut mut inc:0 exc:{n}"]):
                         groups.append(g)
                     if cl:
-                        groups += [["to_vec r0 r1"], [f"resize r0 {n + 2} 24"], [f"resize r0 0 24"], [setup(2, "r1", 10), "extend_from_slice r1 r0"], [setup(2, "r1", 10), "extend_refs r1 r0"], [f"refs r0 to_owned {max(n - 1, 0)}"]]
+                        groups += [[f"{tv} r0 r1"] for tv in TO_VEC] + [[f"resize r0 {n + 2} 24"], [f"resize r0 0 24"], [setup(2, "r1", 10), "extend_from_slice r1 r0"], [setup(2, "r1", 10), "extend_refs r1 r0"], [f"refs r0 to_owned {max(n - 1, 0)}"]]
                     for g in groups:
                         out.append(Scenario(sh, base + g, "desync"))
     return out
